@@ -1172,6 +1172,32 @@ def _run_reaction(case):
         Ku = K[dofs] @ u
         if np.abs(R - Ku).max() > 1e-10 * max(np.abs(Ku).max(), 1e-300):
             v.append(viol("reaction_value", f"direction {name}: Calc_Reaction differs from K[dofs] u by {np.abs(R - Ku).max():.3e}", direction=name, **key))
+    # with a time scheme the reaction carries the inertial / capacity terms of the scheme (docstring of Calc_Reaction)
+    if sim in ("Elastic", "Thermal") and load == "nodal":
+        pt = simu.problemType
+        r = rng("c16dyn", sim, dim, case["mesh"]["id"])
+        n = u.size
+        uu, vv, aa = r.normal(size=n), r.normal(size=n) * 3.0, r.normal(size=n) * 7.0
+        with _quiet():
+            if sim == "Elastic":
+                simu.rho = 1.9
+                simu.Set_Rayleigh_Damping_Coefs(0.11, 0.07)
+                simu.Solver_Set_Hyperbolic_Algorithm(0.05)
+                simu._Set_solutions(pt, uu, vv, aa)
+            else:
+                simu.Solver_Set_Parabolic_Algorithm(0.05, 0.6)
+                simu._Set_solutions(pt, uu, vv)
+            K, C, M, _ = simu.Get_K_C_M_F()
+        for name in unk:
+            dofs = np.asarray(simu.Bc_dofs_nodes(cl, [name]), dtype=int)
+            with _quiet():
+                R = np.asarray(simu.Calc_Reaction(dofs), dtype=float)
+            ntr += 1
+            ref = K[dofs] @ uu + C[dofs] @ vv + (M[dofs] @ aa if sim == "Elastic" else 0.0)
+            if R.shape != ref.shape or np.abs(R - ref).max() > 1e-10 * np.abs(ref).max():
+                what = "K u + C v + M a" if sim == "Elastic" else "K u + C v"
+                v.append(viol("reaction_dynamic", f"direction {name}: with a time scheme Calc_Reaction differs from {what} on the clamped dofs by "
+                                                  f"{np.abs(R - ref).max() if R.shape == ref.shape else float('nan'):.3e} (scale {np.abs(ref).max():.3e})", direction=name, **key))
     return {"violations": v, "fingerprint": fp(sim, case["mesh"]["id"], load, np.array(obs), u), "nontrivial": float(np.abs(u).max()) > 0,
             "transitions": ntr, "outcome": f"reaction:{sim}:viol={len(v)}"}
 
